@@ -93,9 +93,18 @@ def write_ndjson(path, records):
             f.write(json.dumps(r, separators=(",", ":")) + "\n")
 
 
-def read_ndjson(path):
+def read_ndjson(path, tolerant=False):
+    out = []
     with open(path) as f:
-        return [json.loads(l) for l in f if l.strip()]
+        for l in f:
+            if not l.strip():
+                continue
+            try:
+                out.append(json.loads(l))
+            except Exception:
+                if not tolerant:
+                    raise
+    return out
 
 
 def shard(records, n):
